@@ -15,7 +15,9 @@ RULE = (
     "eliminated by hand (closures over the fixed values, reduced x0 / bounds / A[:,free], b - A[:,fixed] v); "
     "(array) Bounds object vs (n,2) array; (dict) dict vs NonlinearConstraint(fun, 0, inf|0); (split) one "
     "two-sided constraint object vs the two one-sided objects in the order the internal form produces; "
-    "(merge) consecutive one-sided constraint objects merged into one vector-valued object; (scale) scale=True "
+    "(splitlin) the same for LinearConstraint objects; (merge) consecutive one-sided constraint objects merged "
+    "into one vector-valued object; (order) linear and nonlinear objects interleaved differently in the list; "
+    "(scale) scale=True "
     "vs the explicitly rescaled unit-box problem (power-of-two half-widths, dyadic centres). Both statements "
     "are run and compared. Component clause (lin): for the Problem built from the statement, the internal "
     "linear residuals at random solver-space points equal the user-space residuals at build_x(point). "
@@ -40,7 +42,7 @@ BASE = dict(
     infeasible_prob=15, debug_prob=0, nl_forms=[("NC", 1)],
     limit_pats=[("le", 4), ("ge", 3), ("two", 4), ("eq", 2), ("free", 1)],
 )
-KINDS = ["fixed", "array", "dict", "split", "merge", "scale", "lin"]
+KINDS = ["fixed", "array", "dict", "split", "splitlin", "merge", "order", "scale", "lin"]
 
 
 def budget(tier):
@@ -76,6 +78,12 @@ def strategy_c10(draw):
         prof["min_nl"] = 1 if kind == "split" else 2
         prof["max_nl"] = 3
         prof["limit_pats"] = [("two", 3), ("le", 2), ("ge", 1)] if kind == "split" else [("le", 1)]
+    if kind == "splitlin":
+        prof["max_lin"] = 3
+        prof["limit_pats"] = [("two", 4), ("le", 2), ("ge", 2)]
+    if kind == "order":
+        prof["max_lin"] = 2
+        prof["min_nl"] = 1
     if kind == "lin":
         prof["max_lin"] = 3
         prof["scale_prob"] = 50
@@ -192,6 +200,39 @@ def restate(kind, base):
         for r, N in enumerate(b["nl"]):
             N["pos"] = 50 + r
         return a, b, changed
+    if kind == "splitlin":
+        # a two-sided LinearConstraint vs the two one-sided ones, upper part first (the order of the
+        # internal form: rows (A, ub) then (-A, -lb))
+        new = []
+        changed = False
+        for L in b["lin"]:
+            lo = np.array(L["lb"], float)
+            hi = np.array(L["ub"], float)
+            if np.any(np.isfinite(lo) & np.isfinite(hi) & (lo < hi)) and not np.any(lo == hi):
+                l1, l2 = copy.deepcopy(L), copy.deepcopy(L)
+                l1["lb"] = [-math.inf] * len(lo)
+                l2["ub"] = [math.inf] * len(lo)
+                for q in (l1, l2):
+                    q.pop("lb_scalar", None)
+                    q.pop("ub_scalar", None)
+                new.extend([l1, l2])
+                changed = True
+            else:
+                new.append(L)
+        b["lin"] = new
+        for r, L in enumerate(b["lin"]):
+            L["pos"] = r
+        return a, b, changed
+    if kind == "order":
+        # the same objects, linear and nonlinear ones interleaved differently in the list (the relative
+        # order within each kind is kept)
+        if not (b["lin"] and b["nl"]):
+            return a, b, False
+        for r, N in enumerate(b["nl"]):
+            N["pos"] = r          # nonlinear objects first ...
+        for r, L in enumerate(b["lin"]):
+            L["pos"] = 50 + r     # ... then the linear ones
+        return a, b, True
     if kind == "merge":
         # merge the first two nonlinear objects (in call order) when both are one-sided 'le'
         nl = list(range(len(b["nl"])))
